@@ -40,7 +40,7 @@ TEXT.update({
 })
 TEXT["C02"]=("For every RPC with URL-bound fields rapid draws request lines (valid / invalid / grey URL values per kind, encodings, missing parameters) x bodies x content types; the handler-visible request or the 400 ValidationError is compared with a reference binder written from the documented contract. Exploration with value shrinking.","§5 C02")
 TEXT["C09"]=("For every RPC with declared headers rapid draws header value sets (absent, empty, must-accept, must-reject, grey per type/format) and body validity; dispatch / 400-with-one-violation-per-offender is judged by a reference validator H; one request in five is written from the published OpenAPI header parameters alone and must be dispatched. Exploration with shrinking.","§5 C09")
-TEXT["C10"]=("rapid draws an error source, a hook behaviour and a content type per call; status, headers, body (decoded in the request's content type) and the Go client's error value are compared with the documented contract; violation paths come from running the reference validator on the same request (field- and message-level rules); the TypeScript server is driven with handler errors, handler ValidationErrors, missing headers and an onError hook. Exploration.","§5 C10")
+TEXT["C10"]=("rapid draws an error source, a hook behaviour and a content type per call; status, headers, body (decoded in the request's content type) and the Go client's error value are compared with the documented contract; violation paths come from running the reference validator on the same request (field- and message-level rules); the TypeScript server is driven with handler errors, handler ValidationErrors, missing headers and an onError hook; for a ValidationError wrapped by the handler status and body must tell the same story. Exploration.","§5 C10")
 TEXT["C11"]=("Valid model-encoded bodies are mutated (wrong type per field at depth, truncation, trailing data, top-level scalars, deep nesting, invalid UTF-8, duplicate keys, random and truncated wire data) under many content types; server verdicts must be 200 or a well-formed 400 and invalid-in-every-form bodies are never dispatched. The Go client is fed arbitrary status/content-type/body combinations. Exploration; bytes-level coverage guidance is not used.","§5 C11")
 TEXT["C17"]=("Random multisets of 10-80 calls over all routes run at parallelism 1-32 through shared generated clients and one shared generated server in a -race build; each call's result is compared with the same call issued alone, no call may be rejected over a header its route does not declare, and the first case of every package runs its concurrent phase first (cold start); a second group runs the emitted mock implementation behind the generated server under concurrent calls (status as alone, no race report). Schedules are sampled, not enumerated: the weakest claim of the set.","§5 C17")
 TEXT["C20"]=("Schemas are generated with generate_mock=true; the package must build and vet, the mock-backed generated server must answer valid requests with 200 and a body that decodes to the response type in its documented JSON form, and fields with examples must hold a parsable example. Exploration on the sub-domain the mock generator compiles for; the rest is pinned as known findings.","§5 C20")
